@@ -175,7 +175,7 @@ def runs(present):
     return out
 
 
-def present_rows(*arrays):
+def present_rows(*arrays, inf_is_value=False):
     """Row i is present iff the first component of the first array is a finite number (the convention
     of the format's writers: the X coordinate / the application point's X decides; the library under
     test treats NaN and +-inf there alike as "no sample").  A present row may carry NaN in its other
@@ -184,7 +184,8 @@ def present_rows(*arrays):
     is +-inf reads back as NaN: only the size / layout checks use such rows, never a round-trip oracle.)"""
     n = len(arrays[0])
     first = np.asarray(arrays[0]).reshape(n, -1)
-    present = np.isfinite(first[:, 0]) if first.shape[1] else np.zeros(n, bool)
+    # inf_is_value: the other legitimate convention - only NaN in the first component means "no sample", +-inf is stored
+    present = (~np.isnan(first[:, 0]) if inf_is_value else np.isfinite(first[:, 0])) if first.shape[1] else np.zeros(n, bool)
     rest_nan = np.ones(n, bool)
     for k, a in enumerate(arrays):
         a2 = np.asarray(a).reshape(n, -1)
@@ -241,7 +242,7 @@ def enc_data3d(w, sp):
     for t in sp["tracks"]:
         w.S(256, t["label"])
         data = np.asarray(t["data"], "<f4").reshape(sp["nFrames"], 3)
-        segs = runs(present_rows(data))
+        segs = runs(present_rows(data, inf_is_value=getattr(w, "inf_is_value", False)))
         _write_segments(w, segs)
         for s, n in segs:
             w.arr(data[s:s + n], "<f4")
@@ -277,7 +278,7 @@ def enc_emg(w, sp):
     for _, t in items:
         w.S(256, t["label"])
         data = np.asarray(t["data"], "<f4").reshape(sp["nSamples"])
-        segs = runs(present_rows(data))
+        segs = runs(present_rows(data, inf_is_value=getattr(w, "inf_is_value", False)))
         _write_segments(w, segs)
         for s, n in segs:
             w.arr(data[s:s + n], "<f4")
@@ -312,7 +313,7 @@ def enc_force3d(w, sp):
         ap = np.asarray(t["ap"], "<f4").reshape(n, 3)
         f = np.asarray(t["force"], "<f4").reshape(n, 3)
         tq = np.asarray(t["torque"], "<f4").reshape(n, 3)
-        segs = runs(present_rows(ap, f, tq))
+        segs = runs(present_rows(ap, f, tq, inf_is_value=getattr(w, "inf_is_value", False)))
         _write_segments(w, segs)
         for s, m in segs:
             w.arr(np.concatenate([ap[s:s + m], f[s:s + m], tq[s:s + m]], axis=1), "<f4")
@@ -349,7 +350,7 @@ def enc_platdata(w, sp):
         ap = np.asarray(p["ap"], "<f4").reshape(n, 2)
         f = np.asarray(p["force"], "<f4").reshape(n, 3)
         tq = np.asarray(p["torque"], "<f4").reshape(n, 1)
-        segs = runs(present_rows(ap, f, tq))
+        segs = runs(present_rows(ap, f, tq, inf_is_value=getattr(w, "inf_is_value", False)))
         _write_segments(w, segs)
         for s, m in segs:
             w.arr(np.concatenate([ap[s:s + m], f[s:s + m], tq[s:s + m]], axis=1), "<f4")
@@ -533,9 +534,10 @@ _DEC = {T_DATA3D: dec_data3d, T_EMG: dec_emg, T_FORCE3D: dec_force3d, T_PLATDATA
         T_EVENTS: dec_events}
 
 
-def encode_block(spec, junk=None, want_dc=False, full_ok=False):
+def encode_block(spec, junk=None, want_dc=False, full_ok=False, inf_is_value=False):
     w = W(junk)
     w.full_ok = full_ok
+    w.inf_is_value = inf_is_value
     _ENC[spec["type"]](w, spec)
     return (bytes(w.b), list(w.dc)) if want_dc else bytes(w.b)
 
